@@ -4,8 +4,8 @@ model stage : MC_WordKernels — the three select algorithms of the code (PDEP d
               clear-lowest loop, broadword byte counts + prefix scan + byte table), the SWAR
               popcount and the byte table, transcribed step by step (WordKernelsImpl), equal the
               set definitions (WordKernels) for EVERY word: W=8 / 4-bit bytes exhaustive
-              (thorough: W=12), and W=16 / 8-bit bytes (real table size, real SWAR depth) on the
-              structured families; plus: the linear-time evaluators used by the trace spec equal
+              (thorough: W=12, and W=16 / 8-bit bytes -- real table size, real SWAR depth -- on
+              the structured families); plus: the linear-time evaluators used by the trace spec equal
               the set definitions.
 trace stage : every available path of the REAL code driven directly and validated result by
               result by Trace_WordKernels.tla at W=64: dispatcher select_in_word, popcount_word,
@@ -128,7 +128,8 @@ def run(ctx):
     q = ctx.quick
     vlib.model_check(ctx, "MC_WordKernels.tla", "MC_WordKernels_quick.cfg" if q else "MC_WordKernels_thorough.cfg",
                      workers=4, timeout=3000)
-    vlib.model_check(ctx, "MC_WordKernels.tla", "MC_WordKernels_byte8.cfg", workers=4, timeout=3000)
+    if not q:
+        vlib.model_check(ctx, "MC_WordKernels.tla", "MC_WordKernels_byte8.cfg", workers=4, timeout=3000)
 
     # the hooked recorder needs hooks/H1-kernel-reexports.patch in the repo; degrade gracefully
     hooked = True
@@ -149,18 +150,17 @@ def run(ctx):
     info = json.loads(out.strip().splitlines()[-1])
     ctx.stage("record", wall, **{k: v for k, v in info.items() if k not in ("families",)})
     sig_of = make_sig(info)
-    n = vlib.check_trace(ctx, "Trace_WordKernels.tla", "Trace.cfg", tp, sig_of, timeout=3000, xmx="6g")
+    n = vlib.check_trace(ctx, "Trace_WordKernels.tla", "Trace.cfg", tp, sig_of, group_key=lambda e: True,   # events are self-contained
+                         timeout=3000, xmx="6g")
     total_results = info["results"]
     evs = vlib.read_ndjson(tp)
     if not ctx.violations:
-        list_selftest(ctx, "Trace_WordKernels.tla", evs, "w", "sel", True)
-        list_selftest(ctx, "Trace_WordKernels.tla", evs, "w", "fc", False)
-        list_selftest(ctx, "Trace_WordKernels.tla", evs, "w", "pc", False)
-        list_selftest(ctx, "Trace_WordKernels.tla", evs, "blk", "rr", False)
-        list_selftest(ctx, "Trace_WordKernels.tla", evs, "scan", "rs", False)
+        tests = [("w", "sel", True), ("w", "fc", False), ("w", "pc", False), ("blk", "rr", False), ("scan", "rs", False)]
         if hooked:
-            list_selftest(ctx, "Trace_WordKernels.tla", evs, "sb", "tab", False)
-            list_selftest(ctx, "Trace_WordKernels.tla", evs, "ff", "fr", False)
+            tests += [("sb", "tab", False), ("ff", "fr", False)]
+        # each self-test is one TLC start-up: the quick tier draws three of them (seeded)
+        for kind, field, nested in (ctx.rng.sample(tests, 3) if q else tests):
+            list_selftest(ctx, "Trace_WordKernels.tla", evs, kind, field, nested)
     for e in evs:
         if e["e"] == "w":
             ctx.note_distinct(("w", tuple(e["w"])))
@@ -171,8 +171,17 @@ def run(ctx):
         s["sel"] = [x[:8] for x in s.get("sel", [])]
         s["fc"] = s.get("fc", [])[:8]
         ctx.sample(s)
-    ctx.sample(next((e for e in evs if e["e"] == "blk" and e["r"] > 0), None))
+    blk = next((e for e in evs if e["e"] == "blk" and e["r"] > 0), None)
+    if blk:
+        ctx.sample(blk)
     del evs
+
+    ctx.cov["rule"] = ("one evaluation = one result of one call of one path of the real code, compared by TLC with the "
+                       "WordKernels definition (events batch all ranks / start bits / paths of one word); "
+                       "distinct_nontrivial = distinct 64-bit words plus distinct 8-word blocks driven")
+    ctx.cov["evaluations"] = total_results
+    if ctx.violations:
+        return      # already reported; the other feature builds would add nothing
 
     # popcount dispatch under the other two popcount strategies (public paths only)
     for feat in ("simd", "portable-popcount"):
@@ -182,7 +191,8 @@ def run(ctx):
                                  "mode=pop"], timeout=900)
         inf = json.loads(out.strip().splitlines()[-1])
         ctx.stage("record " + feat, wall, events=inf["events"], results=inf["results"])
-        n += vlib.check_trace(ctx, "Trace_WordKernels.tla", "Trace.cfg", tpf, make_sig(inf), timeout=3000, selftest=False)
+        n += vlib.check_trace(ctx, "Trace_WordKernels.tla", "Trace.cfg", tpf, make_sig(inf), group_key=lambda e: True,
+                              timeout=3000, selftest=False)
         total_results += inf["results"]
 
     ctx.cov["evaluations"] = total_results
@@ -191,9 +201,6 @@ def run(ctx):
                         "byte_table_entries": info["table_entries"], "fast_close_queries": info["fast_close_queries"],
                         "scan_queries": info["scan_queries"], "host": info["host"]}
     ctx.cov["word_families"] = info["families"]
-    ctx.cov["rule"] = ("one evaluation = one result of one call of one path of the real code, compared by TLC with the "
-                       "WordKernels definition (events batch all ranks / start bits / paths of one word); "
-                       "distinct_nontrivial = distinct 64-bit words plus distinct 8-word blocks driven")
     ctx.assumptions += [
         "2^64 words are sampled by structured families (ALL words with <=2 and >=62 set bits, byte-/nibble-periodic, "
         "single-byte-populated, masks, Dyck-like, random); the byte table and the scaled algorithms are exhaustive",
